@@ -234,6 +234,17 @@ def reward_formulas(v):
     return out
 
 
+def _enum_roots(v, os_):
+    """Origins of the iterator the given `next()`-derived values come from, with enumerate() kept opaque."""
+    out = set()
+    for o in os_:
+        c = call_of(v, o)
+        if c and c[1]["args"]:
+            with v.opaque(r"Iterator>::enumerate$"):
+                out |= v.origins_of_operand(c[1]["args"][0], at=v.at_term(c[0]))
+    return out
+
+
 def absent_test(v, b, c):
     """A branch condition that tests whether a map has an entry for a key: `m.get(&k).is_none()`, `.is_some()`,
     `m.contains_key(&k)`. Returns (map origins, key operand, at, edges taken when the entry is ABSENT) or None."""
@@ -268,6 +279,14 @@ def check_sibling(ctx, model):
            a.where(fa[0][0]) if fa else a.where())
     # an epoch's cumulative emission is recorded only when the map has no entry for that epoch yet (claim and query)
     for v in (a, b):
+        # `if let Entry::Vacant(slot) = map.entry(k) { slot.insert(v) }` can only write an absent entry
+        for vb, vt in v.calls_to(r"^std::collections::(hash_map|btree_map)::VacantEntry::insert$"):
+            eo = v.origins_of_operand(vt["args"][0], at=v.at_term(vb))
+            from_entry = bool(eo) and all(o.kind == "call" and re.search(r"(HashMap|BTreeMap)::entry$", o.a) for o in eo)
+            ctx.ob("C13-W3", "%s|emission-recorded-once" % v.path, from_entry,
+                   "emitted_tokens is written through a vacant entry of the map (only possible when the epoch has no entry yet): %s" % from_entry, v.where(vb))
+        if v.calls_to(r"^std::collections::(hash_map|btree_map)::VacantEntry::insert$") and not v.calls_to(r"^std::collections::(HashMap|BTreeMap)::insert$"):
+            continue
         ins = v.calls_to(r"^std::collections::(HashMap|BTreeMap)::insert$")
         ins = [(ib, it) for ib, it in ins if any(o.proj and o.proj[-1] == "emitted_tokens" or (o.kind == "call" and "emitted_tokens" in str(o.proj))
                                                  for o in v.origins_of_operand(it["args"][0], at=v.at_term(ib)))] or ins
@@ -304,7 +323,16 @@ def check_sibling(ctx, model):
     # the cap: the loop body is entered for the first EPOCH_CLAIM_CAP epochs of a call and not for the next one
     from ..dataflow import single_var_guard, single_var_walk
     is_counter = lambda os_: bool(os_) and any(o.kind == "arith" for o in os_) and all(o.kind in ("arith", "const") for o in os_)
-    tracked, ths = single_var_guard(a, is_counter, [])
+    tracked, ths = single_var_guard(a, is_counter, [])     # `count += 1` before the test: the first epoch is tested with 1
+    first_value = 1
+    enum_mode = False
+    if not tracked:
+        # `for (i, epoch) in (..).enumerate()`: the index half of the pair the loop's next() yields; the first epoch is tested with 0
+        is_enum_index = lambda os_: bool(os_) and all(o.kind == "call" and o.a.endswith("Iterator>::enumerate") and tuple(o.proj[-1:]) == ("0",) for o in os_)
+        with a.opaque(r"Iterator>::enumerate$"):
+            tracked, ths = single_var_guard(a, is_enum_index, [])
+        first_value = 0
+        enum_mode = True
     caps = {}
     for blk, (cond, orient, k) in tracked.items():
         at = cond_at(a, cond)
@@ -317,11 +345,12 @@ def check_sibling(ctx, model):
     cap = next(iter(caps.values()))[2]
     body = fa[0][0]
     rows = {}
-    for x in (cap - 1, cap, cap + 1):
-        rows[str(x)] = body in single_var_walk(a, caps, x)
+    # the k-th epoch of a call is tested with counter value first_value + k - 1: epochs 1..cap pass, epoch cap+1 does not
+    for k in (cap - 1, cap, cap + 1):
+        rows[str(k)] = body in single_var_walk(a, caps, first_value + k - 1)
     want = {str(cap - 1): True, str(cap): True, str(cap + 1): False}
     ctx.ob("C13-W3", "%s|cap-lets-exactly-%s-epochs-through" % (CLAIM, cap), rows == want and cap == 100,
-           "reward computation reachable by epoch counter value: %s (documented: up to %s epochs per call, cap = 100)" % (rows, cap), a.where(next(iter(caps))))
+           "reward computation reachable for the k-th epoch of a call: %s (documented: up to %s epochs per call, cap = 100; counter starts at %s)" % (rows, cap, first_value), a.where(next(iter(caps))))
 
 
 def check_claim_guards(ctx, model):
